@@ -134,26 +134,49 @@
         std::mem::forget(m); std::mem::forget(ca); std::mem::forget(cb);
     }
 
-    /// C17 (quick): a request for a different key with the same 64-bit hash leads its own fetch, it does not join the other's
+    /// C17 / C06 (quick): two different keys in flight, their 64-bit hashes equal or not: the second leads its own fetch (it does
+    /// not join the other's), an insert of one key takes and closes that key's fetch only, and the other key's fetch stays
+    /// registered and reachable. The table stand-in also checks hashbrown's contract for every re-hash closure it is given.
     #[kani::proof]
     #[kani::unwind(4)]
     fn colliding_key_leads_its_own_fetch() {
         let mut m = VM::new();
         let hash: u64 = kani::any();
+        let hash2: u64 = if kani::any() { hash } else { !hash };
         let k1: u8 = kani::any();
         let k2: u8 = kani::any();
         kani::assume(k1 != k2);
         let a = lead(&mut m, hash, &k1);
         assert!(a.is_some(), "[first_caller_leads]");
-        let b = lead(&mut m, hash, &k2);
+        let b = lead(&mut m, hash2, &k2);
         assert!(b.is_some(), "[colliding_key_is_not_joined_to_the_other_keys_fetch]");
         // an insert of the SECOND registered key takes that key's fetch, not the first entry with the same hash
         let (_ida, ca) = a.unwrap();
         let (_idb, cb) = b.unwrap();
-        let t = len_and_forget(m.take(hash, &k2, None));
+        let t = len_and_forget(m.take(hash2, &k2, None));
         assert!(t == Some(1), "[insert_of_one_key_takes_that_keys_waiters]");
         assert!(cb.load(Ordering::Relaxed) && !ca.load(Ordering::Relaxed), "[insert_of_one_key_closes_only_that_keys_fetch]");
         std::mem::forget((m, ca, cb));
+    }
+
+    /// C06 (thorough): taking one key's fetch leaves the fetch of another key registered and reachable
+    #[kani::proof]
+    #[kani::unwind(4)]
+    fn other_keys_fetch_survives_a_take() {
+        let mut m = VM::new();
+        let hash: u64 = kani::any();
+        let hash2: u64 = if kani::any() { hash } else { !hash };
+        let k1: u8 = kani::any();
+        let k2: u8 = kani::any();
+        kani::assume(k1 != k2);
+        let a = lead(&mut m, hash, &k1);
+        let b = lead(&mut m, hash2, &k2);
+        kani::assume(a.is_some() && b.is_some());
+        let t = len_and_forget(m.take(hash2, &k2, None));
+        kani::assume(t == Some(1));
+        let t1 = len_and_forget(m.take(hash, &k1, None));
+        assert!(t1 == Some(1), "[the_other_keys_fetch_stays_registered_and_reachable]");
+        std::mem::forget((m, a, b));
     }
 
     #[kani::proof]
